@@ -101,6 +101,28 @@ def rule_sentinel_divergence(ctx):
                 "collapse_empty_body() is called without the guard that the next non-newline chunk is the closing brace")
 
 
+def rule_sentinel_not_freed(ctx):
+    """The null chunk is a static object; navigation returns it for "no such chunk", so any Chunk::Delete(X) whose X comes
+    from a navigation call can receive it (found: remove_duplicate_include at the end of a file without a final newline,
+    `free(): invalid pointer`).  Chunk::Delete itself must refuse it."""
+    db = ctx.db
+    r = ctx.rule("sentinel-not-freed", "in Chunk::Delete the `delete` expression and the list removal are dominated by the fact that the "
+                 "argument is not the null chunk")
+    f = [g for g in db.fns("Chunk::Delete")]
+    r.require(f, "Chunk::Delete not found")
+    f = f[0]
+    dels = [n for n in f.all_nodes() if n["k"] == "delete" or (n["k"] == "call" and (n.get("c") or "").endswith("::Remove"))]
+    r.require(dels, "Chunk::Delete no longer deletes")
+    for n in dels:
+        r.seen()
+        cs = [(expr_str(f, cn), pol) for cn, pol in f.guard_conds(f.nblock[n["i"]]) if cn is not None]
+        ok = ("pc->IsNullChunk()", False) in cs or ("pc->IsNotNullChunk()", True) in cs or ("pc == NullChunkPtr", False) in cs or ("pc != NullChunkPtr", True) in cs
+        r.check(ok, "Chunk::Delete/%s" % ("delete" if n["k"] == "delete" else "Remove"), db.loc(f, n),
+                "Chunk::Delete() frees / unlinks its argument without excluding the static null chunk, which every navigation call returns "
+                "for 'no such chunk' (facts: %s)" % cs)
+    r.floor(2)
+
+
 def rule_null_links_immutable(ctx):
     db = ctx.db
     r = ctx.rule("null-links-immutable", "m_next/m_prev are stored only in ChunkListManager and Chunk::CopyFrom/Reset; every store through a "
@@ -602,4 +624,4 @@ def rule_no_error_after_output(ctx):
     r.floor(1)
 
 
-RULES = [rule_sentinel_divergence, rule_eof_divergence, rule_null_links_immutable, rule_no_throw, rule_text_index, rule_bounded_copy, rule_exit_discipline, rule_no_error_after_output]
+RULES = [rule_sentinel_divergence, rule_eof_divergence, rule_null_links_immutable, rule_sentinel_not_freed, rule_no_throw, rule_text_index, rule_bounded_copy, rule_exit_discipline, rule_no_error_after_output]
